@@ -678,3 +678,63 @@ class TableLookupLemma(Family):
         a_, b_ = z3.Int("ca"), z3.Int("cb")
         ctx.skolem(z3.And(0 <= a_, a_ < b_, b_ < N))
         ctx.prove("post.the cells hold distinct keys", KD(a_) != KD(b_), pool=[a_, b_, perm(a_), perm(b_)], live=[i, j])
+
+
+@register
+class TableAssignLemma(Family):
+    """C11's assignment clause as a lemma over the proved contracts: after `table[A] = W` (A a vector of keys, repeats allowed) the value cell of an input
+    key K[j] holds W[i] for the LAST i with A[i] == K[j], and is unchanged if no assigned key equals K[j] ("changes those keys only"); the key cells are
+    not written.  Hypotheses: the shared contract formulas of HashTable.__init__ and _get_indices and the element scatter values[h, o] = w (numpy's
+    fancy assignment in witness form: every listed cell is written, the last writer wins, no other cell changes)."""
+    name = "lemma: HashTable assignment changes the assigned keys only"
+    qualname = "npstructures.hashtable:HashTable.__setitem__"
+    serves = ["C11"]
+    assumed = ["callee contracts HashTable.__init__ (contract.bucket-invariant, contract.table.*) and _get_indices (contract.get_indices), proved in their families",
+               "RaggedArray element scatter values[hashes, offsets] = w writes the flat cells starts[hash] + offset, last writer wins, nothing else (C03 families; "
+               "numpy fancy assignment in witness form)", "HashTable.__setitem__ = fill, locate, write (proved: HashTable.__setitem__)"]
+
+    def kinds(self):
+        return ["assigned", "untouched"]
+
+    def run(self, ctx, kind):
+        from ..sym.arr import ElemSort
+        II = (z3.IntSort(), z3.IntSort())
+        fn = lambda nm, *srt: z3.Function(nm, *srt)
+        K, V = fn("K", *II), fn("V", z3.IntSort(), ElemSort)
+        KD, VD0, VD1 = fn("KD", *II), fn("VD0", z3.IntSort(), ElemSort), fn("VD1", z3.IntSort(), ElemSort)
+        S, L, perm, inv, HASH, brow = fn("S", *II), fn("L", *II), fn("perm", *II), fn("inv", *II), fn("HASH", *II), fn("brow", *II)
+        A, H, O, wit = fn("A", *II), fn("H", *II), fn("O", *II), fn("wit", *II)
+        W = fn("W", z3.IntSort(), ElemSort)
+        N, m, a = z3.Int("N"), z3.Int("m"), z3.Int("a")
+        ctx.assume(z3.And(N >= 1, m >= 1, a >= 0))
+        ctx.assume_forall("input keys are distinct", lambda a_, b_: z3.Implies(z3.And(0 <= a_, a_ < b_, b_ < N), K(a_) != K(b_)), arity=2)
+        ctx.assume_forall("bucket invariant", contract_bucket_invariant(KD, S, L, m, HASH, N, brow))
+        for nm, f, ar in contract_table_cells(K, V, N, KD, VD0, perm, inv):
+            ctx.assume_forall(nm, f, arity=ar)
+        ctx.assume_forall("get_indices", contract_get_indices(A, a, H, O, KD, S, L, HASH))
+        ctx.assume_forall("buckets lie inside the key array", contract_table_geometry(S, L, m, N))
+        ctx.assume_forall("hash range (contract of _get_hash)", lambda k_: z3.And(0 <= HASH(k_), HASH(k_) < m))
+        cell = lambda i_: S(H(i_)) + O(i_)
+        hit = lambda c_: z3.And(0 <= wit(c_), wit(c_) < a, cell(wit(c_)) == c_)
+        ctx.assume_forall("scatter: every listed cell is written, the witness is the last writer", lambda i_: z3.Implies(z3.And(0 <= i_, i_ < a),
+                          z3.And(hit(cell(i_)), wit(cell(i_)) >= i_)))
+        ctx.assume_forall("scatter: a written cell gets its last writer's value, every other cell keeps its value", lambda c_: z3.Implies(z3.And(0 <= c_, c_ < N),
+                          VD1(c_) == z3.If(hit(c_), W(wit(c_)), VD0(c_))))
+        j = z3.Int("j")
+        cj = inv(j)
+        w = wit(cj)
+        if kind == "untouched":
+            ctx.skolem(z3.And(0 <= j, j < N))
+            ctx.assume_forall("no assigned key equals K[j]", lambda i_: z3.Implies(z3.And(0 <= i_, i_ < a), A(i_) != K(j)))
+            ctx.prove_then_assume("lemma: a writer of K[j]'s cell would have located K[j]", z3.Implies(hit(cj), A(w) == K(j)), pool=[j, cj, w, H(w), A(w)])
+            ctx.prove("post.the value stored with an unassigned key is unchanged", VD1(cj) == VD0(cj), pool=[j, cj, w])
+            return
+        i = z3.Int("i")
+        ctx.skolem(z3.And(0 <= j, j < N, 0 <= i, i < a, A(i) == K(j)))
+        ctx.assume_forall("i is the last position assigning to K[j]", lambda i_: z3.Implies(z3.And(i < i_, i_ < a), A(i_) != K(j)))
+        c = cell(i)
+        ctx.prove_then_assume("lemma: the located cell exists and holds the assigned key", z3.And(0 <= c, c < N, KD(c) == A(i)), pool=[i, H(i), A(i)], live=[j])
+        ctx.prove_then_assume("lemma: it is the cell of input position j (keys are distinct)", z3.And(perm(c) == j, c == cj), pool=[c, perm(c), j, i, cj])
+        ctx.prove_then_assume("lemma: its last writer is i", w == i, pool=[i, j, cj, c, w, H(w), A(w)])
+        ctx.prove("post.the value stored with an assigned key is the last value assigned to it", VD1(cj) == W(i), pool=[i, j, cj, c, w])
+        # frame: the key cells are not an operand of the scatter (KD is the same function before and after), so the key set never changes
